@@ -4,22 +4,22 @@ Claimed = every property in the table whose id is listed in CLAIM below."""
 import json, subprocess
 
 TECH = {
- "C01": "value-flow (taint) non-interference of the size hint; store/assert type agreement over context keys; switch-table extraction",
+ "C01": "value-flow (taint) non-interference of the size hint; store/assert type agreement over context keys; producer/consumer agreement of context keys across the three configuration paths; switch-table extraction",
  "C02": "SSA dominance / must-pass-through analysis of decode and encode; typestate of error returns",
- "C03": "call-graph reachability with recover-protected frames; entry-guard check of every goroutine; backward size tracing of allocations",
- "C04": "call-graph scan for nondeterministic APIs; field-based value flow of the job count; edge-dominance of shared-stream calls; ownership classification of task fields",
+ "C03": "call-graph reachability with recover-protected frames; entry-guard check of every goroutine; backward size tracing of allocations; dominance of a positive lower-bound test over the success returns of the header parser for fields used as divisors",
+ "C04": "call-graph scan for nondeterministic APIs; field-based value flow of the job count; explicit and implicit (branch/loop-carried phi) flow of the job count into wire fields; edge-dominance of shared-stream calls; ownership classification of task fields",
  "C05": "edge-dominance of shared reads; ownership classification; buffer write-back/publish analysis; typestate of error returns",
- "C06": "CFG loop / callee analysis of the bitstream refill",
+ "C06": "CFG loop / callee analysis of the bitstream refill (count test, exits, error examined on every cycle); dominance of io.EOF returns; forward staleness dataflow of counter-derived buffer indices across the batch call",
  "C07": "SSA edge-dominance and all-paths analyses of the task functions, their deferred handlers and processBlock",
  "C08": "protected-frame reachability of declared panics; error-value escape analysis; dominance ordering of close/flush/closed-flag",
- "C09": "classification of clean exits by edge cutting (reachability); error-value escape; dominance ordering in Close",
+ "C09": "classification of clean exits by edge cutting (reachability); error-value escape; dominance ordering in Close; path-pruned reachability of the batch function's success returns without a completed batch",
  "C10": "frozen wire-constant table of format 6 compared with type-checked constant values, call-site constants and literal-table digests",
- "C11": "dominance ordering of the range tests in decode; normalised comparison operators; loop-exit condition of the batch loop",
+ "C11": "dominance ordering of the range tests in decode; normalised comparison operators with bounds followed through task fields (no narrowing conversion); loop-exit condition of the batch loop; success returns of the batch function only behind a completed batch",
  "C12": "switch-table extraction and pairing of encoder/decoder factory cases; frozen wire constants of the entropy package",
  "C13": "alias (may-refer-to) flow from every Forward src parameter to write sinks; phi analysis of the sequence's error edge",
- "C14": "entry-test and closed-state store checks on the bitstream implementations",
- "C15": "switch-table extraction (bijection, upper-casing, constructors); taint from context codec names to case-sensitive comparisons",
- "C17": "entry-block typestate checks on Write/Read/Close; dominance ordering in Close",
+ "C14": "entry-test and closed-state store checks on the bitstream implementations; affine-equality abstract interpretation (Karr domain, generator form) of the counter fields over the bitstream methods with inlined helpers, specs for the exported operations and error-outcome partitioning",
+ "C15": "switch-table extraction (bijection, upper-casing, constructors); taint from context codec names to case-sensitive comparisons; frozen set of name tests; producer/consumer agreement of the context keys codec variants are selected from",
+ "C17": "entry-block typestate checks on Write/Read/Close; dominance ordering in Close (also through a tail helper); affine-equality abstract interpretation of the bit counters (conserved by flush/refill/Close on every return, restored when Close fails)",
  "C18": "alias flow from every package-level variable to write sinks outside init; ownership classification; hasher purity; worker write-set analysis",
  "C19": "dominance analysis of open flags vs overwrite edge; who-may-call allow-list of file-system mutations; remove-after-close dominance",
 }
@@ -28,7 +28,7 @@ NOT_APPLICABLE = {
 }
 NOTE = ("Trusts go/types, go/ssa and the VTA call graph of x/tools v0.50.0 and the rule code in /verif/checker; assumes no "
         "unsafe/reflect/cgo/linkname in the module (checked on every run); integer arithmetic, buffer sizes and indices are "
-        "not modelled; implicit flows are not tracked; sink rules are armed against a positive-control fixture on every run.")
+        "not modelled outside the bitstream counter analysis (which assumes no wrap-around); implicit flows are tracked only for the job count; sink rules are armed against a positive-control fixture on every run.")
 PENDING = "check not built yet (static rule planned in DESIGN.md); not claimed until it runs clean on the unchanged tree"
 CLAIM = ["C01","C02","C03","C04","C05","C06","C07","C08","C09","C10","C11","C12","C13","C14","C15","C17","C18","C19"]
 
@@ -64,7 +64,7 @@ m = {
                  "kind_free_text": "repository-specific static analyser: go/packages + go/types + go/ssa + VTA call graph (x/tools v0.50.0, go1.26.8); dominance/typestate/taint/table-agreement rules; no kanzi code is executed"}],
     "checks": checks,
     "not_applicable": na,
-    "notes": "All checks are static analyses of the current working tree of /repo/v2 at level 'other': each decides the structural clauses of its property named in level_claimed.text and states what it does not decide. Nine genuine defects found by the rules were repaired by fix: commits in /repo (see known_findings.txt, DESIGN.md section 5).",
+    "notes": "All checks are static analyses of the current working tree of /repo/v2 at level 'other': each decides the structural clauses of its property named in level_claimed.text and states what it does not decide. Eleven genuine defects found by the rules were repaired by fix: commits in /repo (see known_findings.txt, DESIGN.md section 5).",
 }
 json.dump(m, open('/verif/MANIFEST.json', 'w'), indent=1)
 print("claimed", len(checks), "not_applicable", len(na))
